@@ -216,6 +216,44 @@ def fourier_resample(f, zoom):
     return fprime
 
 
+def fourier_resample_backprop(fbar, zoom, in_shape):
+    """Gradient backpropagation for fourier_resample.
+
+    Parameters
+    ----------
+    fbar : ndarray
+        gradient backpropagated up to the output of fourier_resample,
+        ndim 2, real
+    zoom : float
+        zoom factor used in the forward pass
+    in_shape : tuple of int
+        shape of the array given to fourier_resample in the forward pass
+
+    Returns
+    -------
+    ndarray
+        gradient with respect to the input of fourier_resample, shape in_shape
+
+    """
+    if zoom == 1:
+        return fbar
+
+    if isinstance(zoom, (float, int)):
+        zoom = (zoom, zoom)
+    elif not isinstance(zoom, tuple):
+        zoom = tuple(float(zoom) for zoom in zoom)
+
+    m, n = in_shape
+    # adjoints of the three steps of the forward pass, in reverse order:
+    # the scaling, the matrix DFT, and the centered FFT (whose adjoint is
+    # m*n times the centered inverse FFT)
+    fbar = fbar * ((zoom[0]*zoom[1])/math.sqrt(m*n))
+    Fbar = mdft.idft2_backprop(fbar, zoom, (m, n))
+    out = fft.fftshift(fft.ifft2(fft.ifftshift(Fbar))).real
+    out *= (m*n)
+    return out
+
+
 class MatrixDFTExecutor:
     """MatrixDFTExecutor is an engine for performing matrix triple product DFTs as fast as possible."""
 
